@@ -16,7 +16,7 @@ try:
     for prop in props.split(','):
         r = subprocess.run(['/verif/check', prop, '--repo', d, '--evidence-dir', os.path.join(d, 'ev')],
                            capture_output=True, text=True)
-        out = [l for l in r.stdout.splitlines() if not l.startswith('VIOLATION') ]
+        out = [l for l in r.stdout.splitlines() if not l.startswith('VIOLATION') and not l.startswith('KNOWN-FINDING')]
         print(f'{prop}: rc={r.returncode}')
         for l in out[1:6]:
             print('   ', l[:300])
